@@ -260,20 +260,22 @@ pub fn run(run: &mut Run) -> Finish {
     // duplicate; the flags of the remaining tokens must stay on the right tokens)
     let dmax = tier.pick(4, 5);
     let ndup = (dmax as u64 + 1).pow(2);
-    run.par_slice("exact consecutive duplicates: lines [0,1], counts 0..=4/5, every duplicated token x every flag subset", 11, ndup * 3, |idx, l| {
+    run.par_slice("consecutive duplicates: lines [0,1], counts 0..=4/5, every duplicated token x every flag subset, all tokens sourced / every second sourceless, four constructions (the fourth gives sourceless twins different left-over values in their unwritten fields)", 11, ndup * 8, |idx, l| {
         let k = idx & ((1 << 40) - 1);
-        let counts = seq_of(k / 3, dmax as u64 + 1, 2);
+        let counts = seq_of(k / 8, dmax as u64 + 1, 2);
+        let how = [0usize, 1, 2, 5][(k % 4) as usize];
+        let sourceless_every = if k % 8 >= 4 { 2 } else { 0 };
         let n: usize = counts.iter().sum();
         for dup in 0..n {
             for mask in 0..(1u64 << n) {
-                let m = layout_map(&[0, 1], &counts, &|t| mask >> t & 1 == 1, 0, Some(dup));
-                let (v, ran) = check_map(&m, (k % 3) as usize, false);
+                let m = layout_map(&[0, 1], &counts, &|t| mask >> t & 1 == 1, sourceless_every, Some(dup));
+                let (v, ran) = check_map(&m, how, false);
                 for mut x in v {
                     x.sig = format!("{}/with-duplicate-token", x.sig);
                     l.violation_sub(idx, (dup as u64) << 8 | mask, x);
                 }
                 if ran {
-                    l.case(mask != 0, h64(&("dup", counts.clone(), dup, mask.count_ones())));
+                    l.case(mask != 0, h64(&("dup", counts.clone(), dup, mask.count_ones(), sourceless_every)));
                 }
             }
         }
